@@ -294,7 +294,7 @@ def main():
     import hiten.algorithms.connections.backends as cb
     thorough = chk.tier == 'thorough'
     chk.bound(closest_points='all 8 real coordinates, every path of the routine (no bound)',
-              radius_pairs='clouds up to %s points' % ('3x3' if thorough else '2x3'),
+              radius_pairs='clouds up to %s points' % ('2x3 and 3x2' if thorough else '2x3'),
               backend_run='clouds of %s points with 6-D states, radius and tolerances symbolic' % ('2x2' if thorough else '2x2'))
     chk.assume('coordinates of the section points in [-10, 10] (only used to rule out the 1e300 / 1e9 sentinels)',
                'in backend.run the pairwise squared distances and the velocity-mismatch norms enter the solver as free non-negative reals '
@@ -305,7 +305,7 @@ def main():
     radpairs(chk, cb, 2, 2)
     radpairs(chk, cb, 2, 3)
     if thorough:
-        radpairs(chk, cb, 3, 3)
+        radpairs(chk, cb, 3, 2)     # (3x3 was tried: 104 feasibility queries `unknown`, so it is not claimed)
     backend_run(chk, cb, 2, 2, 600 if not thorough else 3000)
     # (a 3x2 cloud through backend.run was tried for the thorough tier: > 6000 paths and 75 min without completing, so it is not claimed)
 
